@@ -177,6 +177,12 @@ def parse_log(res, out, rc):
         res.status = "timeout"
     elif "VERIFICATION:- SUCCESSFUL" in out:
         res.status = "ok"
+    elif re.search(r"Solver ran out of memory|std::bad_alloc", out) or (
+            res.failed and all(st == "ERROR" for _, _, st in res.failed)):
+        # the back end gave up (every undecided check is reported with Status: ERROR): never a verdict
+        res.status = "oom"
+        res.detail = "the SAT back end ran out of memory (all undecided checks have Status: ERROR)"
+        res.failed = []
     elif "VERIFICATION:- FAILED" in out and res.failed:
         res.status = "failed"
     elif re.search(r"std::bad_alloc|out of memory|Status: ERROR|Killed|SIGKILL|memory exhausted|SIGABRT|CBMC failed with status", out, re.I):
